@@ -17,7 +17,7 @@ ASSUMPTIONS = [
 
 
 def _fm(maxw):
-    return [(s, n, f) for s in (True, False) for n in range(1, maxw + 1) for f in sorted(set([0, n // 2, n]))]
+    return [(s, n, f) for s in (True, False) for n in range(1, maxw + 1) for f in sorted(set([-1, 0, n // 2, n, n + 2]))]
 
 
 def configs(tier, seed):
